@@ -1,0 +1,15 @@
+//go:build verif
+// +build verif
+
+package bluge
+
+import "github.com/blugelabs/bluge/index"
+
+// VerifIndexConfig exposes the index configuration to the verification harness.
+func (config Config) VerifIndexConfig() index.Config { return config.indexConfig }
+
+// VerifWithIndexConfig replaces the index configuration.
+func (config Config) VerifWithIndexConfig(ic index.Config) Config {
+	config.indexConfig = ic
+	return config
+}
